@@ -31,8 +31,10 @@ The lifecycle is a labelled transition system at lifecycle-step grain (`Step`): 
 provision phase of a new config), one `cb` per Provision/Start/Stop/Cleanup/event callback of any
 module, one `bind` per listener of the new config, `swap`, `reject`, one `close` per listener of the
 replaced config (issued asynchronously by `http.Server.Shutdown`, hence interleaved arbitrarily with the
-remaining callbacks), `ret`, `stopAll` (caddy.Stop), `gc`, and the client-side steps `accept` /
-`complete` of in-flight requests.  `enabled` is the guard ("can the code do this now"), `eff` the
+remaining callbacks), `ret`, `stopAll` (caddy.Stop), `gc`, the client-side steps `accept` /
+`complete` of in-flight requests, and `adminReplace` / `adminClose` for the admin endpoint, which is replaced
+at the beginning of every load (new listener first, old server shut down asynchronously afterwards) and
+is neither rolled back when the load is rejected nor stopped by caddy.Stop.  `enabled` is the guard ("can the code do this now"), `eff` the
 effect; `step?` = guard + effect.  A reload begins only when the listeners of the previously
 replaced config have been closed (`drained`; assumption recorded in props.d/C02.json).
 -/
@@ -125,10 +127,16 @@ structure State where
   fresh : Gen             -- every generation begun so far is < fresh
   inflight : List (Nat × Gen)   -- requests parked in a handler: (token, accepting config)
   done : List (Nat × Gen)       -- completed requests: (token, config whose handler answered)
+  -- the admin endpoint: a second client of the same listener bookkeeping (admin.go:replaceLocalAdminServer).
+  -- Its addresses are disjoint from the HTTP app's, so its part of the pool is kept as a separate map.
+  asocks : Addr → Sock
+  adm : Option (Gen × Addr)          -- localAdminServer: the load that started it, its address
+  admRetired : List (Gen × Addr)     -- replaced admin servers whose Shutdown has not closed the listener yet
 
 def init : State :=
   { socks := fun _ => Sock.empty, cur := none, next := none, retiring := none, zombies := [],
-    phase := .idle, fresh := 0, inflight := [], done := [] }
+    phase := .idle, fresh := 0, inflight := [], done := [],
+    asocks := fun _ => Sock.empty, adm := none, admRetired := [] }
 
 def setSock (f : Addr → Sock) (a : Addr) (k : Sock) : Addr → Sock :=
   fun b => if b = a then k else f b
@@ -167,6 +175,8 @@ inductive Step where
   | gc (a : Addr)
   | accept (t : Nat) (g : Gen) (a : Addr)
   | complete (t : Nat) (g : Gen)
+  | adminReplace (g : Gen) (a : Option Addr)  -- provisionContext: start the new admin listener (none: disabled), then retire the old server
+  | adminClose (g : Gen) (a : Addr)           -- stopAdminServer (asynchronous): Shutdown closes the replaced server's listener
 deriving DecidableEq, Repr
 
 def isRetiring (s : State) (g : Gen) : Bool := genOf s.retiring == some g
@@ -175,6 +185,12 @@ def bindable (s : State) (a : Addr) : Bool :=
   match s.next with
   | some c => s.loading && c.addrs.contains a && !s.holds a c.gen
   | none => false
+
+/-- generations are load indices: the admin server being replaced was started by an earlier load -/
+def admGenOk (s : State) (g : Gen) : Bool :=
+  (match s.adm with
+   | some (g0, _) => decide (g0 < g)
+   | none => true) && s.admRetired.all (fun p => decide (p.1 < g))
 
 def enabled (s : State) : Step → Bool
   | .begin c => s.phase = .idle && s.drained && decide (s.fresh ≤ c.gen) && decide c.addrs.Nodup
@@ -199,6 +215,20 @@ def enabled (s : State) : Step → Bool
   | .gc _ => true
   | .accept _ g a => s.holds a g
   | .complete t g => s.inflight.contains (t, g)
+  | .adminReplace g a =>
+    s.phase = .prov && genOf s.next == some g && admGenOk s g &&
+      (match a with
+       | some a => !(s.asocks a).holds g
+       | none => true)
+  | .adminClose g a => s.admRetired.contains (g, a)
+
+def admAfter (g : Gen) : Option Addr → Option (Gen × Addr)
+  | some a => some (g, a)
+  | none => none
+
+def asocksAfter (s : State) (g : Gen) : Option Addr → (Addr → Sock)
+  | some a => setSock s.asocks a (bindSock a (s.asocks a) g)
+  | none => s.asocks
 
 def nextGen (s : State) : Gen :=
   match s.next with
@@ -219,6 +249,10 @@ def eff (s : State) : Step → State
   | .gc a => { s with socks := setSock s.socks a { s.socks a with leaks := 0 } }
   | .accept t g _ => { s with inflight := (t, g) :: s.inflight }
   | .complete t g => { s with inflight := s.inflight.erase (t, g), done := (t, g) :: s.done }
+  | .adminReplace g a =>
+    { s with asocks := asocksAfter s g a, adm := admAfter g a, admRetired := s.adm.toList ++ s.admRetired }
+  | .adminClose g a =>
+    { s with asocks := setSock s.asocks a (closeSock a (s.asocks a) g), admRetired := s.admRetired.erase (g, a) }
 
 def step? (s : State) (st : Step) : Option State :=
   if enabled s st then some (eff s st) else none
